@@ -5,6 +5,8 @@ mod ctx;
 #[allow(dead_code)]
 mod docgen;
 #[allow(dead_code)]
+mod tree;
+#[allow(dead_code)]
 mod live;
 #[allow(dead_code)]
 mod rawcoq;
